@@ -10,7 +10,7 @@ def gen_line(rng):
     reentrant = rng.random() < 0.25      # allow same-key re-entrancy in a quarter of the cases
     def mk(depth, busy):
         i = next_id[0]; next_id[0] += 1
-        k = rng.choices(['sc', 'nm', 'sy', 'sp', 'ds'], weights=[4, 4, 4, 1.5, 0.7])[0]
+        k = rng.choices(['sc', 'nm', 'nd', 'sy', 'sp', 'ds'], weights=[4, 4, 2.5, 4, 1.5, 0.7])[0]
         if k == 'sp' or (k in ('sy', 'ds') and not spawned):
             nsp[0] += 1; sid = 10 + nsp[0]; spawned.append(sid)
             nodes[i] = f'sp:{sid}:{rng.randint(0, 2)}'; return i
@@ -19,7 +19,8 @@ def gen_line(rng):
         nk = 0 if depth >= 3 else rng.choice([0, 0, 1, 1, 2, 3])
         if k == 'sc':
             t = rng.randint(0, 2); key = ('sc', t)
-        elif k == 'nm':
+        elif k in ('nm', 'nd'):
+            # nd = named_syscall_direct: same key space as nm (an error unless an earlier nm call cached the system)
             t = rng.randint(0, 2); name = rng.randint(1, 2); key = ('nm', name, t)
         else:
             sid = rng.choice(spawned + ([99] if rng.random() < 0.05 else [])); key = ('sy', sid)
@@ -30,7 +31,7 @@ def gen_line(rng):
         ch = ','.join(map(str, kids))
         v = rng.randint(0, 9)
         if k == 'sc': nodes[i] = f'sc:{key[1]}:{v}:{ch}'
-        elif k == 'nm': nodes[i] = f'nm:{key[1]}:{key[2]}:{v}:{ch}'
+        elif k in ('nm', 'nd'): nodes[i] = f'{k}:{key[1]}:{key[2]}:{v}:{ch}'
         else: nodes[i] = f'sy:{key[1]}:{v}:{ch}'
         return i
     top = [mk(0, frozenset()) for _ in range(rng.randint(2, 7))]
